@@ -1345,6 +1345,6 @@ class SimplicialComplex:
                     else:
                         # no create one
                         #print(f'create {s}')
-                        q = d.addSimplex(fs=c.faces(s), id=s, attr=c[s])
+                        q = d.addSimplex(fs=c.faces(s), id=s, attr=copy.copy(c[s]))
 
         return d
